@@ -832,10 +832,12 @@ class Phase(Angle):
                     out=phase_out,
                 )
 
-        elif function in COMPARISON_UFUNCS and method == "outer" and len(inputs) == 2:
-            # Compare every element of the first with every element of the second
-            # through the exact route below.
+        elif method == "outer" and len(inputs) == 2:
+            # Combine every element of the first with every element of the second
+            # through the exact routes below (not as single doubles).
             first, second = inputs
+            if not isinstance(first, np.ndarray):
+                first = np.asanyarray(first)
             first = first[(...,) + (np.newaxis,) * np.ndim(second)]
             return function(first, second, **kwargs)
 
